@@ -3,7 +3,7 @@ use rusty_pc::*;
 
 use crate::input::StringView;
 use crate::pc_specific::*;
-use crate::tokens::{MatchMode, TokenType, any_symbol_of, any_token_of};
+use crate::tokens::{any_symbol_of, any_token_of};
 use crate::{Expression, ExpressionPos, ParserError};
 
 pub(super) fn parser() -> impl Parser<StringView, Output = ExpressionPos, Error = ParserError> {
@@ -21,12 +21,13 @@ fn string_delimiter() -> impl Parser<StringView, Output = Token, Error = ParserE
     any_symbol_of!('"')
 }
 
+/// The text between the quotes is read character by character (verbatim, up to the closing
+/// quote or the end of the line): it is not source code, so it must not be tokenized
+/// (a run of more than 40 letters inside a string is not an over-long identifier).
 fn inside_string() -> impl Parser<StringView, Output = String, Error = ParserError> {
-    any_token_of!(
-            types = TokenType::Eol ;
-            symbols = '"' ;
-            mode = MatchMode::Exclude)
-    .many_allow_none(StringManyCombiner)
+    read_p()
+        .filter(|ch: &char| *ch != '"' && *ch != '\r' && *ch != '\n')
+        .many_allow_none(StringManyCombiner)
 }
 #[cfg(test)]
 mod tests {
